@@ -343,10 +343,32 @@ pub fn gen_prot_with(g: &mut Gen, ctx: &mut Ctx, content: Option<Item>) -> Resul
                 }
                 ctx.class("protected:built-with-iv-and-partial-iv");
             }
-            let h = match model_to_header(&m) {
+            let mut h = match model_to_header(&m) {
                 Some(h) => h,
                 None => return Err("model header has no in-memory counterpart".into()),
             };
+            // the public enums let a caller write the same algorithm number as `PrivateUse(n)` although n is
+            // registered (or neither registered nor private): it is the same header map {1: n}
+            if g.ratio(1, 10) {
+                fn respell(h: &mut Header) -> bool {
+                    use coset::iana::EnumI64;
+                    let mut done = false;
+                    if let Some(coset::Algorithm::Assigned(a)) = &h.alg {
+                        h.alg = Some(coset::Algorithm::PrivateUse(a.to_i64()));
+                        done = true;
+                    }
+                    for cs in h.counter_signatures.iter_mut() {
+                        if cs.protected.original_data.is_none() {
+                            done |= respell(&mut cs.protected.header);
+                        }
+                        done |= respell(&mut cs.unprotected);
+                    }
+                    done
+                }
+                if respell(&mut h) {
+                    ctx.class("protected:built-with-registered-number-spelled-private-use");
+                }
+            }
             let value = ProtectedHeader { original_data: None, header: h.clone() };
             if m.is_empty() {
                 ctx.class("protected:built-empty");
